@@ -83,6 +83,11 @@ CHECKS = {
    note=TB + "k-means, LDA and eigh inside the two basis generators are external (only their post-conditions — count and unit norm — are checked); numpy's RandomState(seed).randint is trusted to reproduce the batches.",
    technique="Lean 4 proof (invariants for all batch sequences, matrix form) + Float-twin replay with reproduced batches",
    ref="§6 C15"),
+ 'C12': dict(
+   text="Theorems over ℝ: for ANY candidate generator (any external eigh) the acceptance loop only accepts strictly smaller losses, so the loss of the returned matrix is ≤ the loss at the prior (induction over iterations); a stationary start is returned at once; the code's loss and gradient are sums of one documented term per violated constraint (grad form M₀⁻¹ − M⁻¹ + Σ w_i[…]); if every quadruplet holds under the prior the gradient at the prior is 0 (so the prior is returned); multiplying a constraint's weight by c multiplies its loss and gradient terms by c, and any common factor of the weights is immaterial after normalisation; the eigenvalue floor V·max(w,1e-8)·Vᵀ is positive definite for orthogonal V. Tie: Float twin of the objective and gradient (own Gauss–Jordan for inverse/logdet) evaluated on the real result, prior (captured from the initialiser) and weights; oracle on real LSML / LSML_Supervised fits: SPD, objective(result) ≤ objective(prior), feasible prior returned, gradient norm ≤ tol whenever the solver stops before max_iter, rescaled / list / array weights agree.",
+   note=TB + "Not proved: convexity ⇒ a stationary point is the global minimiser (that clause is carried by the per-run stationarity check only); np.linalg.inv/slogdet/eigh are external.",
+   technique="Lean 4 proof (descent invariant for any candidate generator, gradient/weight algebra, PD by flooring) + Float twin of objective/gradient on real fits",
+   ref="§6 C12"),
 }
 
 NOT_YET = {}
